@@ -137,6 +137,8 @@ def coq():
                 ''.join('let %s := %s in\n' % x for x in k2) + 'Some [' + '; '.join(roots) + ']')
     out.append('(* the pool sizes only (dead bindings removed): ' + ', '.join(POOLS) + ' *)')
     out.append('Definition pools (i : binp) : option (list Z) :=\n' + body(POOLS) + '.\n')
+    out.append('(* what the function leaves in static_config.use_cpu_flags *)')
+    out.append('Definition cpu_mask (i : binp) : option (list Z) :=\n' + body(['static_config.use_cpu_flags']) + '.\n')
     allo = OUTPUTS + ['static_config.use_cpu_flags']
     out.append('(* ' + ', '.join(allo) + ' *)')
     out.append('Definition buffers (i : binp) : option (list Z) :=\n' + body(allo) + '.\n')
